@@ -30,6 +30,7 @@ def main():
     ap.add_argument("--props", default=",".join(ALL))
     ap.add_argument("--tier", default="quick")
     ap.add_argument("--jobs", type=int, default=4)
+    ap.add_argument("--only", default="", help="restrict to some obligations: 'C03=S-part;C05=P-resume,P-close' (other properties are not run)")
     a = ap.parse_args()
     patch = os.path.abspath(a.patch)
     wt = tempfile.mkdtemp(prefix="benign_", dir="/tmp")
@@ -49,9 +50,14 @@ def main():
             print("TESTS FAIL on patched tree:", t.stdout.strip().splitlines()[-1:])
             return 2
 
+        only = dict(x.split("=", 1) for x in a.only.split(";") if x)
+        if only:
+            a.props = ",".join(only)
+
         def one(pid):
             t0 = time.time()
-            c = sh([sys.executable, os.path.join(HERE, "run_check.py"), pid, "--tier", a.tier, "--no-evidence"], cwd=HERE, timeout=7200,
+            extra = ["--only", only[pid]] if pid in only else []
+            c = sh([sys.executable, os.path.join(HERE, "run_check.py"), pid, "--tier", a.tier, "--no-evidence"] + extra, cwd=HERE, timeout=7200,
                    env=dict(os.environ, VERIF_REPO=wt, VERIF_WORKERS=os.environ.get("BENIGN_WORKERS", "4")))
             return pid, c.returncode, round(time.time() - t0, 1), c.stdout.strip().splitlines()[-12:]
 
